@@ -16,10 +16,10 @@ theorem instOK_deleteRec (cfg : Cfg) (i : Inst) (k : Key) (hi : InstOK cfg i) :
 theorem absI_deleteRec (i : Inst) (k : Key) : absI (Model.deleteRec i k) = AL.erase k (absI i) := by
   simp [absI, Model.deleteRec, AL.erase_mapV]
 
-theorem shiftLoop_sim (cfg : Cfg) (keys : List Key) :
+theorem shiftLoop_sim (cfg : Cfg) (ar : Arith) (keys : List Key) :
     ∀ (i : Inst), InstOK cfg i →
-    InstOK cfg (Model.shiftLoop i keys).1 ∧
-    (absI (Model.shiftLoop i keys).1, (Model.shiftLoop i keys).2) = Spec.shiftAll (absI i) keys := by
+    InstOK cfg (Model.shiftLoop ar i keys).1 ∧
+    (absI (Model.shiftLoop ar i keys).1, (Model.shiftLoop ar i keys).2) = Spec.shiftAll ar (absI i) keys := by
   induction keys with
   | nil => intro i hi; exact ⟨hi, rfl⟩
   | cons k rest ih =>
